@@ -10072,8 +10072,9 @@ impl<
 			if expected_amt_msat.is_some()
 				&& expected_amt_msat != htlc.mpp_part.total_value_received
 			{
-				log_error!(self.logger, "Somehow ended up with an MPP payment with different received total amounts - this should not be reachable!");
-				debug_assert!(false);
+				// Reachable when a completed payment lost a part to its expiry and then received a
+				// new part that did not complete it again: fail all parts back below.
+				log_error!(self.logger, "Ended up with an MPP payment with different received total amounts, failing it back");
 				valid_mpp = false;
 				break;
 			}
